@@ -42,11 +42,14 @@ def evaluate(d, ant):
         if den == 0:
             continue
         rel = abs(z - m.Z[i, j]) / den
-        amb = filllib.near_threshold(m, i, j)
+        si, sj = filllib.source_pair(m, i, j)
+        amb = filllib.near_threshold(m, i, j) or ((si, sj) != (i, j) and filllib.near_threshold(m, si, sj))
         st['amb'] += amb
         if not amb:
             st['worst_algo'] = max(st['worst_algo'], rel)
-        if rel > 1e-8 and algo_bad is None:
+        # on a Gauss-order / exact-kernel threshold the float comparison may fall either way (8 vs 4 vs 2
+        # points: up to ~1e-5 of the potential scale); away from thresholds the tie is 1e-8
+        if rel > (1e-4 if amb else 1e-8) and algo_bad is None:
             algo_bad = 'entry (%d,%d): implementation %r, algorithm model %r (%.2e of the potential scale)' % (i + 1, j + 1, complex(m.Z[i, j]), z, rel)
         dist = np.linalg.norm(pi.point - pj.point) / max(s.seg_len for p in (pi, pj) for s in p.segs)
         if dist >= 2.5:
